@@ -228,7 +228,7 @@ class Scenario:
                     elif kind == "defer":
                         RE.request_pause(defer=True)
                     elif kind == "abort":
-                        RE.abort()
+                        RE.abort(rec_mod.ABORT_REASON)
                     elif kind == "stop":
                         RE.stop()
                     elif kind == "halt":
@@ -313,14 +313,20 @@ class Scenario:
             rec.ev("reqret", "update", out)
 
         in_call = [False]
+        runs_before = [0]
 
         def do_call(op, fn):
             rec.ev("call", op, "ri" if (op == "run" and RE.record_interruptions) else "")
             in_call[0] = True
+            if op == "run":
+                runs_before[0] = len(rec.run_ord)
             try:
                 r = fn()
                 oc = "ok"
                 nu = len(r) if isinstance(r, (tuple, list)) else 0
+                # C13: the call returns the uids of the runs it opened, in order (-1: it returned something else)
+                if isinstance(r, (tuple, list)) and list(r) != list(rec.run_ord)[runs_before[0]:]:
+                    nu = -1
             except RunEngineInterrupted:
                 oc, nu = "interrupted", 0
             except BaseException as e:  # noqa
@@ -389,7 +395,7 @@ class Scenario:
                     parts = d.split(":")
                     rec.ev("reqret", parts[0], sus_op(parts[0], parts[1], int(parts[2]) if len(parts) > 2 else 0))
                     continue
-                do_call(d, getattr(RE, d))
+                do_call(d, (lambda: RE.abort(rec_mod.ABORT_REASON)) if d == "abort" else getattr(RE, d))
             # further calls on the same engine (histories: what one call leaves behind must not affect the next)
             for nxt in sc.get("then", []):
                 if str(RE.state) != "idle":
@@ -413,7 +419,7 @@ class Scenario:
                     if d.startswith("update:"):
                         main_update(d.split(":", 1)[1])
                         continue
-                    do_call(d, getattr(RE, d))
+                    do_call(d, (lambda: RE.abort(rec_mod.ABORT_REASON)) if d == "abort" else getattr(RE, d))
         done_flag.set()
         self.points = loop.point
         self.outcomes = outcomes
